@@ -6,6 +6,7 @@ import asyncio
 import copy
 import json
 import os
+import sys
 import threading
 import time
 
@@ -135,6 +136,10 @@ def _loop_running():
         return False
 
 
+class ServiceAbort(BaseException):
+    """A failure that deliberately does not derive from Exception."""
+
+
 class _SvcMixin:
     """run(): heartbeat forever; optionally fail after `fail_after` beats."""
 
@@ -156,6 +161,10 @@ class _SvcMixin:
         _event("failing", label=self.label, how=self.fail_how)
         if self.fail_how == "return":
             return "orphaned value from %s" % self.label
+        if self.fail_how == "systemexit":
+            sys.exit("service %s gives up" % self.label)
+        if self.fail_how == "base":
+            raise ServiceAbort("service %s aborted on purpose" % self.label)
         raise RuntimeError("service %s failed on purpose" % self.label)
 
 
